@@ -1,14 +1,33 @@
 #!/usr/bin/env python3
-"""Prints the markdown table of /verif/seeded/*/meta.json (which check catches which seeded change) for DESIGN.md §10."""
-import glob, json, os
+"""Rewrites the table of DESIGN.md section 10 from /verif/seeded/*/meta.json (which check catches which seeded change)."""
+import glob, json, os, re
+
 rows = []
 for p in sorted(glob.glob("/verif/seeded/*/meta.json")):
     m = json.load(open(p))
     name = os.path.basename(os.path.dirname(p))
-    what = (m.get("what_changed") or m.get("what_it_breaks") or "")[:150].replace("|", "/").replace("\n", " ")
-    needs = (m.get("needs_to_manifest") or "")[:120].replace("|", "/").replace("\n", " ")
-    checks = m.get("checks", {})
-    res = "; ".join(f"{k}: {v['verdict']}" + (f" ({v['mechanisms'][0].split('|clause=')[1][:60]})" if v.get("mechanisms") else "") for k, v in checks.items())
-    rows.append(f"| {name} | {what} | {needs} | {res} |")
-print("| seeded change | what was changed | needs to manifest | result (quick tier) |\n|---|---|---|---|")
-print("\n".join(rows))
+    what = re.sub(r"\s+", " ", (m.get("what_changed") or "")).replace("|", "/")
+    what = what[:170] + ("…" if len(what) > 170 else "")
+    needs = re.sub(r"\s+", " ", (m.get("needs_to_manifest") or "")).replace("|", "/")
+    needs = needs[:130] + ("…" if len(needs) > 130 else "")
+    res = []
+    for k, v in (m.get("checks") or {}).items():
+        mech = ""
+        if v.get("mechanisms"):
+            mm = v["mechanisms"][0]
+            c = re.search(r"clause=([^|]*)", mm)
+            mech = f" ({c.group(1)[:48]})" if c else ""
+        res.append(f"{k}: {v['verdict']}{mech}")
+    note = " — rebased" if m.get("rebased") else ""
+    note += " — obsolete (see meta.json)" if str(m.get("status", "")).startswith("obsolete") else ""
+    rows.append(f"| {name}{note} | {what} | {needs} | {'; '.join(res)} |")
+table = "| seeded change | what was changed | needs to manifest | result (quick tier, seed 0) |\n|---|---|---|---|\n" + "\n".join(rows)
+path = "/verif/DESIGN.md"
+s = open(path).read()
+a, b = "<!-- seeded-table:begin -->", "<!-- seeded-table:end -->"
+if a in s:
+    s = s[: s.index(a) + len(a)] + "\n" + table + "\n" + s[s.index(b):]
+    open(path, "w").write(s)
+    print("table rewritten:", len(rows), "rows")
+else:
+    print(table)
